@@ -16,6 +16,7 @@ import ast
 from tools.vlib.core import TranslateError
 
 SRC = "androguard/decompiler/opcode_ins.py"
+ISRC = "androguard/decompiler/instruction.py"
 WANTED = list(range(0x7B, 0x7F)) + [0x81, 0x84, 0x8D, 0x8E, 0x8F] + list(range(0x90, 0xA6)) + list(range(0xB0, 0xC6)) + list(range(0xD0, 0xE3))
 
 
@@ -103,12 +104,47 @@ def translate(ctx):
             rows.append((opc, "Cast %s" % cstr(sconst(call.args[2]))))
         else:
             fail(fn, "instruction function outside the subset")
+    # ---- the conditional branches 0x32-0x3d and the table of complementary operators (instruction.py: CONDS)
+    crows = []
+    for opc in range(0x32, 0x3E):
+        if opc >= len(iset) or iset[opc] not in funcs:
+            raise TranslateError("opcode 0x%x has no instruction function" % opc)
+        fn = funcs[iset[opc]]
+        body = [s_ for s_ in fn.body if not (isinstance(s_, ast.Expr) and isinstance(s_.value, ast.Call) and ast.unparse(s_.value.func) == "logger.debug")]
+        ret = body[-1]
+        if not isinstance(ret, ast.Return) or not isinstance(ret.value, ast.Call):
+            fail(fn, "no final return of a call")
+        call = ret.value
+        cname = ast.unparse(call.func)
+        if cname == "ConditionalExpression" and len(body) == 2 and ast.unparse(body[0]) == "a, b = get_variables(vmap, ins.A, ins.B)" \
+                and [ast.unparse(x) for x in call.args[1:]] == ["a", "b"]:
+            crows.append((opc, "Cond %s" % cstr(opsym(call.args[0]))))
+        elif cname == "ConditionalZExpression" and len(body) == 1 and len(call.args) == 2 and ast.unparse(call.args[1]) == "get_variables(vmap, ins.AA)":
+            crows.append((opc, "CondZ %s" % cstr(opsym(call.args[0]))))
+        else:
+            fail(fn, "conditional instruction function outside the subset")
+    itree = ast.parse(ctx.src(ISRC))
+    conds = None
+    for n in itree.body:
+        if isinstance(n, ast.Assign) and isinstance(n.targets[0], ast.Name) and n.targets[0].id == "CONDS":
+            if not isinstance(n.value, ast.Dict) or not all(isinstance(k, ast.Constant) and isinstance(v, ast.Constant) and isinstance(k.value, str) and isinstance(v.value, str)
+                                                             for k, v in zip(n.value.keys, n.value.values)):
+                fail(n, "CONDS is not a dict of string literals")
+            conds = [(k.value, v.value) for k, v in zip(n.value.keys, n.value.values)]
+            if len({k for k, _ in conds}) != len(conds):
+                fail(n, "CONDS has a repeated key")
+    if conds is None:
+        raise TranslateError("CONDS not found in %s" % ISRC)
+    ctext = ["(* GENERATED by tools/tr/optable_tr.py from %s and %s - do not edit. *)" % (SRC, ISRC),
+             "From Coq Require Import ZArith List.", "Require Import V.Dad.OpSemantics.", "Import ListNotations.", "Open Scope Z_scope.", "",
+             "Definition cond_table : list (Z * centry) := [", ";\n".join("  (%d, %s)" % (o, e) for o, e in crows), "].",
+             "Definition conds : list (list Z * list Z) := [", ";\n".join("  (%s, %s)" % (cstr(k), cstr(v)) for k, v in conds), "]."]
     text = ["(* GENERATED by tools/tr/optable_tr.py from %s - do not edit. *)" % SRC,
             "From Coq Require Import ZArith List.", "Require Import V.Dad.OpSemantics.", "Import ListNotations.", "Open Scope Z_scope.", "",
             "Definition op_table : list (Z * entry) := ["]
     text.append(";\n".join("  (%d, %s)" % (o, e) for o, e in rows))
     text.append("].")
-    return {"gen/Gen_OpTable.v": "\n".join(text) + "\n"}
+    return {"gen/Gen_OpTable.v": "\n".join(text) + "\n", "gen/Gen_CondTable.v": "\n".join(ctext) + "\n"}
 
 
 def cstr(s):
